@@ -117,8 +117,9 @@ func (c *Ctx) Sample(v any) {
 
 // PanicInfo describes a recovered panic.
 type PanicInfo struct {
-	Val   string
-	Frame string // innermost frame inside the library
+	Val     string
+	Frame   string // innermost frame inside the library
+	Runtime bool   // the panic value is a runtime.Error (a crash, not a deliberate panic("..."))
 }
 
 func (p *PanicInfo) String() string { return fmt.Sprintf("panic %q at %s", p.Val, p.Frame) }
@@ -130,6 +131,7 @@ func Guard(fn func()) (pi *PanicInfo) {
 	defer func() {
 		if v := recover(); v != nil {
 			pi = &PanicInfo{Val: clip(fmt.Sprint(v), 200)}
+			_, pi.Runtime = v.(runtime.Error)
 			pcs := make([]uintptr, 64)
 			n := runtime.Callers(2, pcs)
 			fr := runtime.CallersFrames(pcs[:n])
